@@ -73,6 +73,25 @@ CAUGHT = {
  "C11-4": ("C11", "crash:Aborted (quill's ScopedThreadContext assert: the statement after preallocate() creates a second context)", ""),
  "C01-3": ("C01", "reservation_granted_without_released_space, reservation_larger_than_capacity_granted, data_race_overwrite_of_bytes_still_being_read", "needs 8/16-bit position counters carried through the wrap with unread bytes"),
  "C01-4": ("C01", "data_race_overwrite_of_bytes_still_being_read", "a pure memory-order weakening (release -> relaxed on the drained-queue publish): invisible on x86"),
+ # ---- wave 6 (ids -5 / -6 / -7): three per property, at most one in the property's first anchor file
+ "C16-5": ("C16", "accepted_or_arguments_evaluated_below_logger_level", "missed at first; caught after C16 plans got logger level None and LOG_BACKTRACE statements (level Backtrace sits between Critical and None)"),
+ "C16-6": ("C16", "wrong_attribution", "(same mechanism as C16-2)"),
+ "C16-7": ("C16", "delivered_to_a_sink_whose_threshold_or_filter_rejects_it", ""),
+ "C06-5": ("C06", "delivery:lost, flush_returned_before_other_threads_statement_in_file, crash:Segmentation_fault", "(same mechanism as C20-2)"),
+ "C06-6": ("C06", "flush_returned_before_other_threads_statement_in_file / flush_returned_before_own_statement_in_file", "missed at first; caught after file sinks were also created with FileEventNotifier callbacks (before_write handing the statement through)"),
+ "C06-7": ("C06", "flush_never_returns (also C08: control_request_never_returns)", "caught by C06 in 1 of 24000 runs at first (robustly by C08); C06 plans now flush with a full dropping queue: 701 runs"),
+ "C10-5": ("C10", "wrong_attribution", "(same mechanism as C10-2)"),
+ "C10-6": ("C10", "statements_missing_from_file", "missed at first; caught after C10 got a JsonFileSink whose before_write callback rejects chosen statements (fwrite failures alone do not expose it: the residue is then a complete line)"),
+ "C10-7": ("C10", "crash:Segmentation_fault, fault_not_reported, garbled_line_in_file", "missed at first; caught after the format-mismatch site got a variant with placeholders and no arguments"),
+ "C03-5": ("C03", "lost", "(same mechanism as C20-2)"),
+ "C03-6": ("C03", "lost (also C07: completed_statement_missing_after_exit)", "(same mechanism as C07-1)"),
+ "C03-7": ("C03", "statement_discarded_by_a_blocking_queue", "missed at first (a false return of a log call was simply treated as 'not accepted'); the C03 judge now demands that a blocking queue never returns false"),
+ "C08-5": ("C08", "crash:Aborted (quill's size assert)", "(same mechanism as C04-1)"),
+ "C08-6": ("C08", "accepted_but_not_delivered", "(same mechanism as C20-2)"),
+ "C08-7": ("C08", "reported_drop_count_mismatch direction=over_reported", ""),
+ "C17-5": ("C17", "blocking_removal_never_returns, crash:Segmentation_fault", "(same idea as C17-1 / C17-3, in BackendWorker)"),
+ "C17-6": ("C17", "sink_lookup_not_idempotent", "missed at first; caught after a sink-name history through the registry was added (reference kept past a blocking removal, dropped, name created again, looked up)"),
+ "C17-7": ("C17", "csv_file_differs_after_the_writer_was_destroyed, crash:Aborted (quill's valid-logger assert)", "missed at first; caught after CsvWriter scopes on a user-supplied sink that the user keeps referencing were added (re-created at once under the same name)"),
  "C07-2": ("C07", "handler_notice_missing, statement_of_signalled_thread_missing, wrong_exit_status", "missed at first; caught after a second delivery of the same signal to another thread was added to C07 programs (and pause() interposed)"),
  "C11-1": ("C11", "steady_state_log_call_allocated typed_site=144/145/146", "missed at first; caught after call sites with more than twelve string values in one statement were added"),
  "C11-2": ("C11", "steady_state_log_call_allocated typed_site=130", ""),
